@@ -24,6 +24,9 @@ pub struct Case {
     pub port: u16,
     /// forwarding mode: forwarder address text; None = recursive mode
     pub forwarder: Option<String>,
+    /// the universe was arranged so that a nameserver comes up twice in one walk
+    #[serde(default)]
+    pub revisit: bool,
 }
 
 pub struct Families;
@@ -64,7 +67,92 @@ impl Prop for Families {
         tier.pick(40_000, 4_000_000)
     }
     fn generate(&self, g: &mut Gen) -> Case {
-        let universe = gen_universe(g, &UniverseOpts { max_zones: 7, max_depth: 4, multi_address_hosts: false, wildcards: false, aliases: true });
+        let mut universe = gen_universe(g, &UniverseOpts { max_zones: 7, max_depth: 4, multi_address_hosts: false, wildcards: false, aliases: true });
+        // partial glue: a parent that holds addresses of one family only for
+        // a zone's nameservers (the other family is learnt later, from a
+        // deeper referral or a look-up)
+        for z in universe.zones.iter_mut().skip(1) {
+            if g.chance(1, 4) {
+                z.glue_families = g.range(1, 2) as u8;
+            }
+        }
+        // a nameserver that comes round again: N serves a zone Z1 and a zone
+        // Z3 two cuts further down, the zone in between is served by others;
+        // Z1's parent has glue of one family only for N, the referral to Z3
+        // carries both.  Under a prefer-* mode N is first contacted at the
+        // only address held and must be contacted at the preferred one when
+        // it comes up again within the same resolution.
+        let mut revisit = false;
+        let mut revisit_apex: Option<N> = None;
+        if g.chance(1, 5) {
+            let idx: Vec<(usize, usize, usize)> = {
+                let z = &universe.zones;
+                let mut v = Vec::new();
+                for c in 1..z.len() {
+                    for b in 1..z.len() {
+                        for a in 1..z.len() {
+                            if a != b && b != c && z[c].apex.is_at_or_below(&z[b].apex) && z[b].apex.is_at_or_below(&z[a].apex) && z[c].apex != z[b].apex && z[b].apex != z[a].apex {
+                                v.push((a, b, c));
+                            }
+                        }
+                    }
+                }
+                v
+            };
+            if !idx.is_empty() {
+                let (a, b, c) = g.pick(&idx);
+                let n = universe.zones[a].ns.iter().find(|n| n.is_at_or_below(&universe.zones[a].apex)).cloned();
+                if let Some(n) = n {
+                    if !universe.zones[b].ns.contains(&n) {
+                        if let Some(hi) = universe.hosts.iter().position(|h| h.name == n) {
+                            if universe.hosts[hi].v4.is_empty() {
+                                universe.hosts[hi].v4.push([10, 7, hi as u8, 53]);
+                            }
+                            if universe.hosts[hi].v6.is_empty() {
+                                let mut x = [0u8; 16];
+                                x[0] = 0xfd;
+                                x[14] = 7;
+                                x[15] = hi as u8;
+                                universe.hosts[hi].v6.push(x);
+                            }
+                            let fam = g.range(1, 2) as u8;
+                            universe.zones[a].glue_families = fam;
+                            // a split host: the box behind the address the
+                            // parent hands out serves Z1 only, the box behind
+                            // the other address serves both (one name, two
+                            // machines), so the walk really passes through Z2
+                            let first_addr = if fam == 1 {
+                                std::net::IpAddr::from(universe.hosts[hi].v4[0])
+                            } else {
+                                std::net::IpAddr::from(universe.hosts[hi].v6[0])
+                            };
+                            let apex_c = universe.zones[c].apex.clone();
+                            universe.unserved.push((first_addr.to_string(), apex_c));
+                            universe.zones[c].ns = vec![n];
+                            universe.zones[c].glue_for_oob = true;
+                            universe.zones[c].glue_families = 0;
+                            revisit = true;
+                            revisit_apex = Some(universe.zones[c].apex.clone());
+                        }
+                    }
+                }
+            }
+        }
+        // IPv4-mapped IPv6 addresses are IPv6 addresses
+        if g.chance(1, 5) {
+            let with_v6: Vec<usize> = universe.hosts.iter().enumerate().filter(|(_, h)| !h.v6.is_empty()).map(|x| x.0).collect();
+            if !with_v6.is_empty() {
+                let hi = g.pick(&with_v6);
+                let mut a = [0u8; 16];
+                a[10] = 0xff;
+                a[11] = 0xff;
+                a[12] = 10;
+                a[13] = 9;
+                a[14] = hi as u8;
+                a[15] = 53;
+                universe.hosts[hi].v6[0] = a;
+            }
+        }
         let ok: Vec<u8> = (0..4u8).filter(|p| reachable(&universe, *p)).collect();
         let protocol = g.pick(&ok);
         let questions = gen_questions(g, &universe, 5);
@@ -74,7 +162,14 @@ impl Prop for Families {
         } else {
             None
         };
-        Case { universe, questions, protocol, port, forwarder }
+        // the walk down to the revisited zone
+        let mut questions = questions;
+        if revisit {
+            if let Some(apex) = &revisit_apex {
+                questions.insert(0, WQ { name: apex.child(b"www"), qtype: T_A, qclass: 1 });
+            }
+        }
+        Case { universe, questions, protocol, port, forwarder, revisit }
     }
     fn check(&self, c: &Case) -> Outcome {
         clock::set_virtual_nanos(Some(1_000_000_000));
@@ -83,7 +178,7 @@ impl Prop for Families {
         let hints = u.hints_zone();
         let cache = SharedCache::new();
         let proto = protocol_of(c.protocol);
-        let mut out = Outcome::pass(false).class(format!("protocol:{proto}")).class(if c.forwarder.is_some() { "forwarding" } else { "recursive" });
+        let mut out = Outcome::pass(false).class(if c.revisit { "revisit-arranged" } else { "plain-universe" }).class(format!("protocol:{proto}")).class(if c.forwarder.is_some() { "forwarding" } else { "recursive" });
         let violations: Arc<Mutex<Vec<(String, String)>>> = Default::default();
         let fwd_addr: Option<SocketAddr> = c.forwarder.as_ref().map(|s| SocketAddr::new(s.parse().unwrap(), c.port));
 
@@ -148,6 +243,9 @@ impl Prop for Families {
             }
             let log = mock.log();
             out.counts.push(("exchanges", log.len() as u64));
+            if std::env::var("VERIF_DEBUG").is_ok() {
+                eprintln!("question {} {}: {}", q.name, q.qtype, super::c07::describe(&log));
+            }
             // order of the resolver's own address look-ups per nameserver host
             if fwd_addr.is_none() && (protocol == 1 || protocol == 2) {
                 let mut first_seen: std::collections::BTreeMap<N, u16> = Default::default();
@@ -160,6 +258,17 @@ impl Prop for Families {
                 }
                 for (h, t) in first_seen {
                     let want = if protocol == 1 { T_A } else { T_AAAA };
+                    // A host that is a nameserver of the zone it lives in can
+                    // only be looked up through itself: the look-up for the
+                    // preferred family is then still in progress (on the
+                    // resolver's question stack, where it cannot be repeated)
+                    // when the nested look-up falls back to the other family,
+                    // whose query reaches the wire first.  Not judged.
+                    let self_dependent = u.zones.iter().filter(|z| h.is_at_or_below(&z.apex)).max_by_key(|z| z.apex.depth()).map_or(false, |z| z.ns.iter().any(|n| n.lower() == h));
+                    if t != want && self_dependent {
+                        out.classes.push("own-address-lookup:self-dependent-host".into());
+                        continue;
+                    }
                     if t != want {
                         return out.fail("lookup-order", format!("looked up {h} type {t} first under {proto}; exchanges: {}", super::c07::describe(&log)));
                     }
@@ -198,7 +307,7 @@ pub fn def() -> PropertyDef {
     PropertyDef {
         id: "C18",
         level: "exploration",
-        rule: "A generated universe (as in C07; nameserver hosts v4-only, v6-only or dual; addresses learnt from hints, glue, cache left by earlier questions or the resolver's own look-ups) and a session of 1..5 questions in one of the four protocol modes under which every zone is reachable, upstream port 53 or random, 1 case in 5 in forwarding mode with a random v4/v6 forwarder. The mock transport (hook H2) checks every exchange when it happens: destination port = configured; only-v4 => destination is v4, only-v6 => v6; prefer-X => if the destination is a non-X address of host H, neither the hints nor the cache (read through the inspection hook at that instant) hold an unexpired X address for H; forwarding => destination = the forwarder. After each question the log is checked: the first address look-up the resolver issued for a nameserver host asks for the preferred family. Non-trivial = a contacted host is dual-stacked or lacks the preferred family, or (forwarding) something was forwarded. Distinct by hash of the case.",
+        rule: "A generated universe (as in C07; nameserver hosts v4-only, v6-only or dual, sometimes with an IPv4-mapped IPv6 address; one zone in four gets glue of one family only from its parent; one universe in five is arranged so that a dual-stacked nameserver known by one family only comes up again two cuts further down with glue of both families (a split host: the box at the address known first does not serve the deeper zone, so that the walk passes through the zone in between); addresses learnt from hints, glue, cache left by earlier questions or the resolver's own look-ups) and a session of 1..5 questions in one of the four protocol modes under which every zone is reachable, upstream port 53 or random, 1 case in 5 in forwarding mode with a random v4/v6 forwarder. The mock transport (hook H2) checks every exchange when it happens: destination port = configured; only-v4 => destination is v4, only-v6 => v6; prefer-X => if the destination is a non-X address of host H, neither the hints nor the cache (read through the inspection hook at that instant) hold an unexpired X address for H; forwarding => destination = the forwarder. After each question the log is checked: the first address look-up the resolver issued for a nameserver host asks for the preferred family (not judged for a host that is a nameserver of the zone it lives in: its preferred-family look-up is still in progress when the nested one falls back). Non-trivial = a contacted host is dual-stacked or lacks the preferred family, or (forwarding) something was forwarded. Distinct by hash of the case.",
         assumptions: vec!["one address per family and host (multi-address hosts are C07's)"],
         parts: vec![Box::new(Families)],
         budget_s: |t| t.pick(900, 10_800),
